@@ -220,6 +220,8 @@ def buffer_contract_rule(prog, res):
                         an_ = _c18.as_new(g, init)
                         if an_ and an_['array'] and an_['size'] is not None:
                             alloc.append((g, an_['size']))
+                elif ba['k'] == 'MemberExpr' and ba.get('mk') == 'field' and re.match(r'^(?:unsigned |signed )?char\[(\d+)\]$', ba.get('ftype', '')):
+                    alloc.append((g, P.const(int(re.match(r'^(?:unsigned |signed )?char\[(\d+)\]$', ba['ftype']).group(1)))))
                 elif ba['k'] == 'MemberExpr' and ba.get('mk') == 'field':
                     for h, nid, rhs in _c18.field_writes(prog, ba['fclass'], ba['member']):
                         if rhs is None:
